@@ -14,6 +14,9 @@ pub mod c06;
 pub mod c07;
 pub mod c08;
 pub mod c09;
+pub mod c10;
+pub mod c11;
+pub mod e2ecommon;
 pub mod c13;
 pub mod filecommon;
 pub mod c14;
@@ -24,7 +27,7 @@ pub mod c18;
 
 pub fn all() -> Vec<&'static dyn Prop> {
     vec![
-        &c01::C01, &c02::C02, &c04::C04, &c05::C05, &c06::C06, &c07::C07, &c08::C08, &c09::C09, &c13::C13, &c14::C14, &c15::C15, &c16::C16,
+        &c01::C01, &c02::C02, &c04::C04, &c05::C05, &c06::C06, &c07::C07, &c08::C08, &c09::C09, &c10::C10, &c11::C11, &c13::C13, &c14::C14, &c15::C15, &c16::C16,
         &c17::C17, &c18::C18,
     ]
 }
